@@ -260,6 +260,7 @@ class Scheduler:
         self.preempt_rngs = {}
         self.pre_steps = 0
         self.pre_cap = 400000
+        self.idle_steps = 0
         self.lib_prefix = None
         self.pollers = set()     # threads whose last timed wait expired and that have only done
         #                          non-blocking checks since (a polling loop between two polls)
@@ -359,26 +360,37 @@ class Scheduler:
         runnable = self._runnable()
         if not runnable:
             return self._deliver_abort(me, SimDeadlock)
-        if me is not None and me.pending == 'pre':
-            self.pre_steps += 1            # line-level pre-emption points have their own budget
+        live = sum(1 for t in self.threads if t.state != 'done')
+        if live > self.max_live:
+            self.max_live = live
+        chosen = self.chooser.choose(self, runnable, me if (me is not None and me.state != 'done') else None)
+        # three budgets: real operations (the step cap proper: bounded-step termination of the
+        # operation under test), line-level pre-emption points, and idle steps (timer expiries, a
+        # poller's flag checks, observations) which the fairness rules bound per real step and which
+        # can only run away when nothing makes progress any more
+        expiry = chosen.deadline is not None and chosen.pred is not None and not chosen.pred()
+        observation = chosen.pred is None and chosen.pending in OBSERVATIONS
+        poll_check = chosen.id in self.pollers and chosen.pred is None
+        if expiry or observation or poll_check:
+            self.idle_steps += 1
+            if self.idle_steps > 60 * self.step_cap + 5000:
+                return self._deliver_abort(me, SimStepCap)
+        elif chosen.pending == 'pre':
+            self.pre_steps += 1
             if self.pre_steps > self.pre_cap:
                 return self._deliver_abort(me, SimStepCap)
         else:
             self.steps += 1
             if self.steps > self.step_cap:
                 return self._deliver_abort(me, SimStepCap)
-        live = sum(1 for t in self.threads if t.state != 'done')
-        if live > self.max_live:
-            self.max_live = live
-        chosen = self.chooser.choose(self, runnable, me if (me is not None and me.state != 'done') else None)
-        if chosen.deadline is not None and chosen.pred is not None and not chosen.pred():
+        if expiry:
             self.clock = max(self.clock, chosen.deadline)
             chosen.timed_out = True
             self.count('timeout_fired')
             self.pollers.add(chosen.id)
-        elif chosen.pred is None and chosen.pending in OBSERVATIONS:
+        elif observation:
             chosen.last_obs = self.progress      # looking is not progress
-        elif chosen.id in self.pollers and chosen.pred is None:
+        elif poll_check:
             # a poller between two polls: costs nothing, lets nobody else's timer fire
             pass
         else:
@@ -769,7 +781,10 @@ class SimLock:
 
     __enter__ = acquire
 
-    def __exit__(self, *exc):
+    def __exit__(self, et=None, ev=None, tb=None):
+        if et is not None and issubclass(et, SimAbort):
+            self._owner = None            # unwinding a simulator abort: never mask it
+            return False
         self.release()
         return False
 
@@ -825,8 +840,11 @@ class SimCondition:
     def __enter__(self):
         return self._lock.__enter__()
 
-    def __exit__(self, *exc):
-        return self._lock.__exit__(*exc)
+    def __exit__(self, et=None, ev=None, tb=None):
+        if et is not None and issubclass(et, SimAbort):
+            self._lock._owner = None
+            return False
+        return self._lock.__exit__(et, ev, tb)
 
     def wait(self, timeout=None):
         if self._lock._owner is None:
@@ -1047,28 +1065,39 @@ class SimExecutor:
     exceptions are stored in the future and never printed (the real behaviour)."""
 
     def __init__(self, max_workers=None, thread_name_prefix='', initializer=None, initargs=()):
-        s = _current_sched
-        if s is None:
-            raise HarnessError('SimExecutor outside a simulation run')
         if max_workers is None:
             max_workers = 5
         if max_workers <= 0:
             raise ValueError("max_workers must be greater than 0")
         self._max_workers = max_workers
+        self._shutdown = False
+        self._sched = None
+        self.max_inflight = 0
+        self._bind()
+
+    def _bind(self):
+        """A pool belongs to the run in which it is used: one created outside a run, or kept by the
+        library in process-wide state from an earlier run (whose worker threads are gone), starts
+        afresh, as it would in the fresh process each run stands for."""
+        s = _current_sched
+        if s is self._sched or s is None:
+            return
+        self._sched = s
         self._work = []
         self._workers = []
         self._idle = 0
-        self._shutdown = False
         self._nsub = 0
         self._inflight = 0
-        self.max_inflight = 0
         self.ename = s.new_name('pool')
         s.count('pools_created')
         s.pools = getattr(s, 'pools', [])
         s.pools.append(self)
 
     def submit(self, fn, /, *args, **kwargs):
+        self._bind()
         s = _current_sched
+        if s is None:
+            raise HarnessError('SimExecutor used outside a simulation run')
         s.yield_point('ex.submit', info=(self.ename, self._nsub))
         if self._shutdown:
             raise RuntimeError('cannot schedule new futures after shutdown')
@@ -1117,8 +1146,9 @@ class SimExecutor:
         return gen()
 
     def shutdown(self, wait=True, *, cancel_futures=False):
+        self._bind()
         s = _current_sched
-        if s.aborted or s.killing:
+        if s is None or s.aborted or s.killing:
             self._shutdown = True
             return
         s.yield_point('ex.shutdown', info=(self.ename,))
